@@ -135,7 +135,8 @@ struct Driver {
     std::vector<std::unique_ptr<struct VJob>> jobs;
     bool typed_fresh[4] = {true, true, true, true};
     struct JobAct { uint32_t idx; bool getmut; Entity e; int pal; };
-    std::vector<JobAct> job_acts;   // what the callback of the next runjob does while it processes entity number idx
+    std::vector<JobAct> job_acts;
+    std::vector<std::string> job_do;   // structural calls the callback of the next runjob makes while it handles entity 0   // what the callback of the next runjob does while it processes entity number idx
 
     EntityManager& em() { return world->entities(); }
 };
@@ -676,6 +677,12 @@ static std::string run_script(const std::vector<std::string>& lines, std::ostrea
         else if (op == "jobact") { // jobact <entity index> <markdirty|getmut> <h> <pal>: performed by the callback of the next runjob
             uint32_t idx; std::string kind, h; int p; in >> idx >> kind >> h >> p; do_register(p, 0);
             d.job_acts.push_back({idx, kind == "getmut", parse_handle(h), p}); }
+        else if (op == "jobdo") { // jobdo <create|createarch|assignid|removeid|destroynow> <tid> ...: done by the callback of the next runjob at entity 0
+            std::string rest; std::getline(in, rest);
+            { std::istringstream r2(rest); std::string k; int tid_; r2 >> k >> tid_;
+              if (k == "create" || k == "createarch") { ComponentIdMask m_; SharedComponentsInfo sh_; parse_pals(r2, m_, sh_); }
+              else if (k == "assignid" || k == "removeid") { std::string h_; int p_; r2 >> h_ >> p_; do_register(p_, 0); } }
+            d.job_do.push_back(rest); }
         else if (op == "valid") { std::string h; in >> h; R << (em.isEntityValid(parse_handle(h)) ? 1 : 0); }
         else if (op == "archof") { std::string h; in >> h; auto* a = em.getArchetypeOf(parse_handle(h)); if (a) R << a->id().toInt(); else R << "null"; }
         else if (op == "mkjob") { // mkjob <entity 0/1> <reqs: pal:flags ...> c <check pals...>   flags: 1 const, 2 optional
@@ -702,6 +709,17 @@ static std::string run_script(const std::vector<std::string>& lines, std::ostrea
             job.callback = [&](NonTemplateJob::ForEachArrayArgs a) {
                 std::ostringstream s;
                 s << "t" << a.invocation_index.task_index.toInt() << ":n" << a.invocation_index.entity_index.toInt() << ":";
+                if (a.invocation_index.entity_index.toInt() == 0 && a.count.toInt() > 0 && !d.job_do.empty()) {
+                    std::vector<std::string> acts; acts.swap(d.job_do);
+                    for (const auto& aline : acts) {
+                        std::istringstream ain(aline); std::string k; int tid_; ain >> k >> tid_;
+                        if (k == "create" || k == "createarch") { ComponentIdMask m_; SharedComponentsInfo sh_; parse_pals(ain, m_, sh_);
+                            Entity ne = k == "create" ? em.create(m_, sh_) : em.create(em.getArchetype(m_, sh_)); issue(ne); }
+                        else if (k == "assignid") { std::string h_, v_; int p_; ain >> h_ >> p_ >> v_; void* ptr = em.assign(parse_handle(h_), d.cid[p_]); if (v_ != "-" && has_value(p_)) write_value(ptr, std::stoll(v_)); }
+                        else if (k == "removeid") { std::string h_; int p_; ain >> h_ >> p_; em.removeComponent(parse_handle(h_), d.cid[p_]); }
+                        else if (k == "destroynow") { std::string h_; ain >> h_; em.destroyNow(parse_handle(h_)); }
+                    }
+                }
                 for (uint32_t i = 0; i < a.count.toInt(); ++i) {
                     for (const auto& act : d.job_acts) {
                         if (act.idx != a.invocation_index.entity_index.toInt() + i) continue;
@@ -720,7 +738,8 @@ static std::string run_script(const std::vector<std::string>& lines, std::ostrea
                 std::lock_guard<std::mutex> lock{vm}; arrays.push_back({a.invocation_index.entity_index.toInt(), s.str()});
             };
             job.run(*d.world, mode == 1 ? JobRunMode::kParallel : JobRunMode::kCurrentThread);
-            d.job_acts.clear();
+            d.job_acts.clear(); d.job_do.clear();
+            if (!arrays.empty()) d.epoch++;     // the run locked and unlocked the manager: a new lock period for the names of temporaries
             std::sort(arrays.begin(), arrays.end());
             R << "last=" << job.last_update_version_.toInt();
             for (auto& v : arrays) R << " " << v.second;
@@ -734,6 +753,7 @@ static std::string run_script(const std::vector<std::string>& lines, std::ostrea
                              case 2: tj[2] = std::make_unique<TJ2>(); break; default: tj[3] = std::make_unique<TJ3>(); break; } }
             g_typed.visits.clear(); g_typed.forced = tasks;
             tj[k]->run(*d.world, mode == 1 ? JobRunMode::kParallel : JobRunMode::kCurrentThread);
+            if (!g_typed.visits.empty()) d.epoch++;
             std::sort(g_typed.visits.begin(), g_typed.visits.end());
             R << "last=" << tj[k]->last_update_version_.toInt();
             for (auto& v : g_typed.visits) R << " " << v.second;
